@@ -111,7 +111,9 @@ func (d *dec) btree2(addr uint64) *btree2 {
 		return t
 	}
 	if t.total == 0 {
-		d.fail("%s at 0x%x: root node address 0x%x defined but the tree holds 0 records", what, a, d.abs(t.rootAddr))
+		// an empty tree has no root node (undefined address); the pinned writer keeps an empty leaf after
+		// all records were deleted
+		d.deviate("btree2-empty-root", "%s at 0x%x: root node address 0x%x defined but the tree holds 0 records", what, a, d.abs(t.rootAddr))
 	}
 	visited := map[uint64]bool{}
 	var node func(addr uint64, nrec int, depth int) uint64
@@ -140,7 +142,7 @@ func (d *dec) btree2(addr uint64) *btree2 {
 		if uint64(nrec) > maxNrec[depth] {
 			d.fail("%s at 0x%x: %d records exceed the node capacity of %d", nwhat, na, nrec, maxNrec[depth])
 		}
-		if nrec == 0 {
+		if nrec == 0 && !(t.total == 0 && depth == int(t.depth)) { // an empty root is the btree2-empty-root deviation
 			d.fail("%s at 0x%x: node with 0 records", nwhat, na)
 		}
 		recs := make([][]byte, nrec)
